@@ -38,8 +38,6 @@ fn shim_reader_lines<R: BufRead>(reader: R) -> (r: Vec<io::Result<String>>)
     ensures r@.len() == reader_lines(reader).len(),
         forall|i: int| 0 <= i < r@.len() ==> (match reader_lines(reader)[i] { Ok(t) => (#[trigger] r@[i]) is Ok && r@[i]->Ok_0@ == t, Err(_) => r@[i] is Err })
 { reader.lines().collect() }
-/// str::trim(): leading and trailing Unicode whitespace removed (uninterpreted; a trimmed non-empty text is non-empty)
-pub uninterp spec fn trimmed(t: Seq<char>) -> Seq<char>;
 #[verifier::external_body]
 fn shim_trim<'a>(s: &'a String) -> (r: &'a str) ensures r@ == trimmed(s@) { s.trim() }
 pub open spec fn PKGNAME_EQ() -> Seq<char> { seq!['P', 'K', 'G', 'N', 'A', 'M', 'E', '='] }
@@ -128,8 +126,6 @@ impl ScanIndex {
 
 // ---- KeyValue::visit_str: the KEY=VALUE block parser behind the Deserialize impl
 pub axiom fn axiom_string_key_model() ensures vstd::std_specs::hash::obeys_key_model::<String>();
-/// a String value is determined by its characters
-pub axiom fn axiom_string_ext(a: String, b: String) ensures (a@ == b@) == (a == b);
 pub open spec fn has_key(m: Map<String, String>, k: Seq<char>) -> bool { exists|s: String| #[trigger] m.contains_key(s) && s@ == k }
 pub open spec fn key_of(m: Map<String, String>, k: Seq<char>) -> String { choose|s: String| #[trigger] m.contains_key(s) && s@ == k }
 /// lookup in a HashMap<String,String> by the characters of the key
@@ -166,11 +162,6 @@ fn shim_split_once_char<'a>(s: &'a str, c: char) -> (r: Option<(&'a str, &'a str
         None => first_index_of(s@, c) < 0,
     })
 { s.split_once(c) }
-// shim D6.trim_to_string
-#[verifier::external_body]
-fn shim_trim_to_string(s: &str) -> (r: String) ensures r@ == trimmed(s@), r == str_of(trimmed(s@)) { s.trim().to_string() }
-/// the String with the given characters (unique by axiom_string_ext)
-pub open spec fn str_of(cs: Seq<char>) -> String { choose|s: String| s@ == cs }
 /// stands for serde's error type parameter E (never constructed by visit_str)
 pub struct DeErr { pub _p: () }
 pub struct KeyValue;
